@@ -47,13 +47,23 @@ def not_chars(r):
     return z3.Intersect(ANY, z3.Complement(r))
 
 
-_WS = " \t\n\r\x0b\x0c"
+def _unicode_space_chars():
+    """exact set of code points matched by \\s in a str pattern (computed from re itself)"""
+    rx = re.compile(r"\s")
+    return [c for c in range(0x30000) if rx.match(chr(c))]
+
+
+_SPACE = None
 
 
 def _category(av):
-    if av is sre_c.CATEGORY_DIGIT:
-        # str patterns: \d is Unicode decimal digits; only ASCII digits are modelled -> callers restrict alphabets
-        raise NotImplementedError("category \\d on str is Unicode-wide")
+    global _SPACE
+    if av is sre_c.CATEGORY_SPACE:
+        if _SPACE is None:
+            _SPACE = union(lit(c) for c in _unicode_space_chars())
+        return _SPACE
+    if av is sre_c.CATEGORY_NOT_SPACE:
+        return not_chars(_category(sre_c.CATEGORY_SPACE))
     raise NotImplementedError(av)
 
 
@@ -75,10 +85,14 @@ def _cls_items(items):
     return not_chars(r) if neg else r
 
 
-def _conv(sub, flags, top=False):
+def _conv(sub, flags, at_start=False, at_end=False):
+    """at_start / at_end: this sequence begins / ends where the whole pattern begins / ends, so that ^ and $
+    inside top-level groups and branches (as in `(^"..."$)|(^'...'$)`) keep their meaning under full match."""
     out = []
     items = list(sub)
     for idx, (op, av) in enumerate(items):
+        first = at_start and idx == 0
+        last = at_end and idx == len(items) - 1
         if op is sre_c.LITERAL:
             if flags & re.IGNORECASE:
                 raise NotImplementedError("IGNORECASE")
@@ -101,19 +115,17 @@ def _conv(sub, flags, top=False):
             out.append(r)
         elif op is sre_c.SUBPATTERN:
             _g, addf, delf, body = av
-            out.append(_conv(body, (flags | addf) & ~delf))
+            out.append(_conv(body, (flags | addf) & ~delf, first, last))
         elif op is sre_c.BRANCH:
-            out.append(union(_conv(b, flags) for b in av[1]))
+            out.append(union(_conv(b, flags, first, last) for b in av[1]))
         elif op is sre_c.AT:
-            last = idx == len(items) - 1
-            first = idx == 0
-            if av in (sre_c.AT_BEGINNING, sre_c.AT_BEGINNING_STRING) and first and top:
+            if av in (sre_c.AT_BEGINNING, sre_c.AT_BEGINNING_STRING) and first:
                 if av is sre_c.AT_BEGINNING and flags & re.MULTILINE:
                     raise NotImplementedError("MULTILINE ^")
                 continue
-            if av is sre_c.AT_END_STRING and last and top:
+            if av is sre_c.AT_END_STRING and last:
                 continue
-            if av is sre_c.AT_END and last and top:
+            if av is sre_c.AT_END and last:
                 if flags & re.MULTILINE:
                     raise NotImplementedError("MULTILINE $")
                 out.append(z3.Option(lit(10)))
@@ -125,15 +137,13 @@ def _conv(sub, flags, top=False):
 
 
 def compile_rx(pattern, flags=0):
-    """-> z3 regex for the full-match language of `pattern` (str or compiled pattern)."""
+    """-> z3 regex for the full-match language of `pattern` (str or compiled pattern).  For patterns that end in
+    $ or \\Z, `re.match` accepts exactly this language."""
     if hasattr(pattern, "pattern"):
         flags |= pattern.flags & (re.DOTALL | re.MULTILINE | re.IGNORECASE | re.VERBOSE)
         pattern = pattern.pattern
     p = sre_parse.parse(pattern, flags)
-    fl = p.state.flags
-    items = list(p)
-    # a single top-level group such as (?s:...)\Z keeps its anchors at top level
-    return _conv(items, fl, top=True)
+    return _conv(list(p), p.state.flags, True, True)
 
 
 def decode_z3_string(v):
